@@ -133,6 +133,19 @@ def run_nb_check(ctx, mix_quick, mix_thorough, extra=None, jobs=8):
             raise C.BuildFailure('checker error while judging session %s (script saved in replay/%s-checker-error.txt): %r' % (tag, pid, e))
         stats['compared'] += ncmp
         ctx.count(s.text(), nontrivial=ncmp > 4)
+        # data errors on several processes: is it the MPI-IO layer? (OpenMPI's default ompio returns zeros for the last
+        # bytes of the file in some collective reads; ROMIO does not) - re-run under ROMIO and label accordingly
+        if s.np > 1 and any(f['kind'] in ('get-buffer', 'file-content', 'file-bytes') and not f['key'].startswith(('F', 'wait')) for f in fails):
+            r2 = S.run_script(s.text(), impl, None, wd, tag + '-romio', timeout=360, want_model=False, env={'OMPI_MCA_io': 'romio321'})
+            if not (r2.hang or r2.crash):
+                f2 = N.judge(s, N.ImplView(s, r2))
+                if not any(f['kind'] in ('get-buffer', 'file-content', 'file-bytes') and not f['key'].startswith(('F', 'wait')) for f in f2):
+                    for f in fails:
+                        if f['kind'] in ('get-buffer', 'file-content', 'file-bytes') and not f['key'].startswith(('F', 'wait')):
+                            f['key'] = 'mpiio:ompio-result-differs-from-romio'
+                            f['detail'] += ' [the same script under OMPI_MCA_io=romio321 passes: MPI-IO layer (ompio), not PnetCDF]'
+                    mism = [m for m in mism if m['rel'] not in ('corr_C13_buffer', 'corr_C02_file', 'corr_C02_readback')]
+                    stats['ompio_vs_romio'] = stats.get('ompio_vs_romio', 0) + 1
         mism = [m for m in mism if in_domain(pid, m['rel'], True)]
         fails = [f for f in fails if in_domain(pid, f['kind'], False)]
         if fails:
@@ -141,6 +154,9 @@ def run_nb_check(ctx, mix_quick, mix_thorough, extra=None, jobs=8):
         if mism:
             stats['model_disagreements'] += 1
             disagreements.append((tag, s, mism, bool(fails)))
+            if len(stats.setdefault('disagreement_samples', [])) < 12:
+                stats['disagreement_samples'].append('%s: %s line %s rank %s%s: %s' % (tag, mism[0]['rel'], mism[0]['line'], mism[0]['rank'],
+                                                     ' (session also fails the oracle: %s)' % fails[0]['key'] if fails else '', mism[0]['detail'][:160]))
     stats['wall_impl_s'] = round(t_impl, 1); stats['wall_model_s'] = round(t_model, 1)
     extra_stats = extra(ctx, lib, wd) if extra else None
     if extra_stats:
@@ -153,8 +169,20 @@ def run_nb_check(ctx, mix_quick, mix_thorough, extra=None, jobs=8):
                        'by the spec oracle; non-trivial = more than 4 compared observations; distinct = distinct script text')
     # ---------------- verdicts
     for tag, s, r in hard[:3]:
-        ctx.violation('%s: %s' % ('hang (watchdog, also alone with 3x the limit)' if r.hang else 'crash (twice) / no inq', (r.crash or r.stdout or '')[-400:]),
-                      dict(script=s.text(), nprocs=s.np, how_to_replay=REPLAY), key='hang' if r.hang else 'crash')
+        # what did the oracle see before the process died?  a crash that follows an already recorded finding in the
+        # same history (the library's queues are inconsistent from there on) is reported as its consequence
+        key = 'hang' if r.hang else 'crash'
+        first = ''
+        try:
+            pf = [f for f in N.judge(s, N.ImplView(s, r)) if f['kind'] != 'no-observation']
+            if pf and pf[0]['key'].startswith(('F', 'wait')):
+                key = '%s-after:%s' % (key, pf[0]['key'])
+                first = ' | first oracle failure before it: line %d: %s' % (pf[0]['line'], pf[0]['detail'][:200])
+        except Exception:
+            pass
+        ctx.violation('%s: %s%s' % ('hang (watchdog, also alone with 3x the limit)' if r.hang else 'crash (twice) / no inq',
+                                    (r.crash or r.stdout or '')[-400:], first),
+                      dict(script=s.text(), nprocs=s.np, how_to_replay=REPLAY), key=key)
     reported = set()
     for tag, s, fails in oracle_fails:
         for f0 in fails:
